@@ -141,7 +141,7 @@ pub fn run(ctx: &mut Ctx) {
             }
         }
     }
-    let fam_step = if ctx.is_thorough() { 1 } else { 3 };
+    let fam_step = 1;
     let mut i = ctx.shard * fam_step + 1;
     while i < inputs::family_count() {
         let input = inputs::family_case(i);
